@@ -18,7 +18,10 @@ PROOF_MODULES = ['OsloProofs.Props.C16']
 LEVEL = 'proof'
 RULE = ('(function, value, incoming, encoding, errors, locale) tuples: values are unicode strings (ASCII, latin-1, BMP, '
         'astral, combining, compatibility characters; surrogate-free), byte strings (valid encodings of such strings, '
-        'truncated / mutated / hand-made ill-formed UTF-8, random bytes) and non-text objects; codec names in random '
+        'truncated / mutated / hand-made ill-formed UTF-8, random bytes), each either as an exact str / bytes or as an '
+        'instance of a proper subclass (plain, tagged, __str__/__repr__/__format__ overriding, __eq__ overriding, '
+        'encode/decode overriding, str-/bytes-mixin Enum member, StrEnum, oslo_i18n Message), and non-text objects '
+        '(None, numbers, containers, bytearray, memoryview, array, UserString, StringIO, Path, duck-typed text); codec names in random '
         'letter case and alias spelling, plus unknown names; errors in strict/ignore/replace; sys.stdin.encoding and '
         'sys.getdefaultencoding() scripted.  A case is non-trivial when the call got past the type dispatch and the str '
         'pass-through, i.e. a codec (or the slug pipeline) really ran on a non-empty value, on both sides; distinct by '
@@ -40,6 +43,8 @@ UNMODELLED = [
     'unicodedata.normalize (parameter of the model)',
     'error policies other than strict / ignore / replace; lone surrogates in str values',
     'codec names outside ASCII; non-string incoming/encoding arguments',
+    'str / bytes subclasses whose overridden encode/decode/lower/strip change the meaning of the text protocol '
+    '(the model, like the property, speaks about the character / byte content of the instance)',
 ]
 ASSUMPTIONS = [
     'encodeutils reads the locale only through sys.stdin.encoding and sys.getdefaultencoding() (the harness scripts both)',
@@ -62,11 +67,173 @@ UNKNOWN_NAMES = ['no-such-codec', 'utf-88', 'latin-99', 'ascii2', 'x-none']
 EXTRA_CODECS = ['utf-16', 'cp1252', 'shift_jis', 'utf-16-le', 'utf-16-be', 'utf-32', 'cp437', 'koi8-r', 'euc-jp',
                 'iso-8859-15', 'big5', 'gb18030', 'mac-roman', 'cp932']
 
-OTHERS = {
-    'None': None, 'int': 5, 'float': 1.5, 'bool': True, 'list': ['a'], 'tuple': (b'a',), 'dict': {'a': 1},
-    'set': {1}, 'bytearray': bytearray(b'ab'), 'memoryview': memoryview(b'ab'), 'object': object(),
-    'exception': ValueError('x'), 'type': str,
+class _UserText:
+    """duck-typed text: has encode/decode/lower/strip, is neither str nor bytes"""
+
+    def __init__(self, s):
+        self.s = s
+
+    def encode(self, *a):
+        return self.s.encode(*a)
+
+    def decode(self, *a):
+        return self.s
+
+    def lower(self):
+        return self
+
+    def __str__(self):
+        return self.s
+
+    def __bytes__(self):
+        return self.s.encode('utf-8')
+
+    def __len__(self):
+        return len(self.s)
+
+
+def _others():
+    import array
+    import collections
+    import io
+    import pathlib
+    return {
+        'None': None, 'int': 5, 'float': 1.5, 'bool': True, 'list': ['a'], 'tuple': (b'a',), 'dict': {'a': 1},
+        'set': {1}, 'bytearray': bytearray(b'ab'), 'memoryview': memoryview(b'ab'), 'object': object(),
+        'exception': ValueError('x'), 'type': str, 'bytes-type': bytes,
+        # near-text types that are neither str nor bytes
+        'empty-bytearray': bytearray(), 'array': array.array('b', b'ab'), 'UserString': collections.UserString('ab'),
+        'StringIO': io.StringIO('ab'), 'BytesIO': io.BytesIO(b'ab'), 'Path': pathlib.PurePosixPath('ab'),
+        'duck-text': _UserText('ab'), 'list-of-str': ['a', 'b'], 'int-zero': 0, 'complex': 1j,
+    }
+
+
+OTHERS = _others()
+
+
+# Proper subclasses of str / bytes.  Their instances ARE str / bytes (isinstance), so the property's
+# clauses for str and bytes apply to them; every override below is transparent (it keeps the
+# character / byte content and the meaning of the text protocol), it only changes what a helper
+# would see if it dispatched on the exact type, on str()/repr()/format(), or on ==.
+class PlainStr(str):
+    pass
+
+
+class TaggedStr(str):
+    """a str carrying extra attributes (like a lazy translation message)"""
+
+    def __new__(cls, s):
+        self = super().__new__(cls, s)
+        self.tag = 'tagged'
+        return self
+
+
+class DunderStr(str):
+    """__str__/__repr__/__format__ render something else than the content"""
+
+    def __str__(self):
+        return '<lazy text>'
+
+    def __repr__(self):
+        return '<DunderStr>'
+
+    def __format__(self, spec):
+        return '<lazy text>'
+
+
+class EqStr(str):
+    """== is identity-like (never equal to a plain str), hash kept"""
+
+    def __eq__(self, other):
+        return self is other
+
+    def __ne__(self, other):
+        return self is not other
+
+    __hash__ = str.__hash__
+
+
+class EncodeStr(str):
+    """encode() overridden, delegating to str.encode"""
+
+    def encode(self, *a, **k):
+        return super().encode(*a, **k)
+
+
+class TaggedBytes(bytes):
+    def __new__(cls, b):
+        self = super().__new__(cls, b)
+        self.tag = 'tagged'
+        return self
+
+
+class PlainBytes(bytes):
+    pass
+
+
+class DunderBytes(bytes):
+    def __str__(self):
+        return '<blob>'
+
+    def __repr__(self):
+        return '<DunderBytes>'
+
+    def __bytes__(self):
+        return bytes.__getitem__(self, slice(None))
+
+
+class EqBytes(bytes):
+    def __eq__(self, other):
+        return self is other
+
+    def __ne__(self, other):
+        return self is not other
+
+    __hash__ = bytes.__hash__
+
+
+class DecodeBytes(bytes):
+    def decode(self, *a, **k):
+        return super().decode(*a, **k)
+
+
+def _enum_member(name, mixin, value):
+    import enum
+    return enum.Enum(name, {'MEMBER': value}, type=mixin).MEMBER
+
+
+def _str_enum_member(value):
+    import enum
+    return enum.StrEnum('TextStrEnum', {'MEMBER': value}).MEMBER
+
+
+def _message(value):
+    from oslo_i18n import _message as m
+    return m.Message(value, domain='oslo_utils')
+
+
+STR_SUBCLASSES = {
+    'PlainStr': PlainStr, 'TaggedStr': TaggedStr, 'DunderStr': DunderStr, 'EqStr': EqStr, 'EncodeStr': EncodeStr,
+    'str-mixin-Enum': lambda s: _enum_member('TextEnum', str, s), 'StrEnum': _str_enum_member,
 }
+try:
+    _message('x')
+    STR_SUBCLASSES['oslo_i18n.Message'] = _message
+except Exception:        # oslo.i18n not installed: the other subclasses remain
+    pass
+BYTES_SUBCLASSES = {
+    'PlainBytes': PlainBytes, 'TaggedBytes': TaggedBytes, 'DunderBytes': DunderBytes, 'EqBytes': EqBytes,
+    'DecodeBytes': DecodeBytes, 'bytes-mixin-Enum': lambda b: _enum_member('BlobEnum', bytes, b),
+}
+
+
+def plain(x):
+    """the exact str / bytes with the same content as x (no overridable method of x is used)"""
+    if isinstance(x, str):
+        return str.__getitem__(x, slice(None))
+    if isinstance(x, bytes):
+        return bytes.__getitem__(x, slice(None))
+    return x
 
 
 # ---------------------------------------------------------------------------
@@ -213,20 +380,37 @@ def stdin_enc(stdin):
     return name if kind == 'attr' else None
 
 
-def case_value(case):
+def case_content(case):
+    """the character / byte content of the argument as an exact str / bytes (None for other types)"""
     vk = case['vk']
     if vk == 's':
         return common.unhexs(case['val'])
     if vk == 'b':
         return common.unhexb(case['val'])
-    return OTHERS[case['val']]
+    return None
+
+
+def case_value(case):
+    """the argument object itself: an exact str / bytes, an instance of the subclass named by
+    case['cls'], or a non-text object"""
+    vk = case['vk']
+    if vk == 'o':
+        return OTHERS[case['val']]
+    content = case_content(case)
+    cls = case.get('cls')
+    if not cls:
+        return content
+    v = (STR_SUBCLASSES if vk == 's' else BYTES_SUBCLASSES)[cls](content)
+    assert type(v) is not type(content) and isinstance(v, type(content)) and plain(v) == content
+    return v
 
 
 def canon(r):
-    if type(r) is str:
-        return 'str:' + hexs(r)
-    if type(r) is bytes:
-        return 'bytes:' + hexb(r)
+    """a result by what it IS (isinstance) and its content; subclass instances are str / bytes"""
+    if isinstance(r, str):
+        return 'str:' + hexs(plain(r))
+    if isinstance(r, bytes):
+        return 'bytes:' + hexb(plain(r))
     return 'other:' + type(r).__name__
 
 
@@ -265,6 +449,8 @@ def model_line(case):
     """Request line for the Lean driver."""
     fn, vk = case['fn'], case['vk']
     val = case['val'] if vk in 'sb' else '-'
+    if case.get('cls') and vk in 'sb':
+        vk = vk.upper()                 # instance of a proper subclass: Cls.sub in the model
     env = [opt_name(stdin_enc(case['stdin'])), hexs(case['default'])]
     if fn == 'safe_decode':
         return req('dec', vk, val, opt_name(case['incoming']), case['errors'], *env)
@@ -436,26 +622,29 @@ def gen_locale(rng, namegen):
     return stdin, rng.choice(['utf-8', 'utf-8', 'ascii', 'latin-1'])
 
 
-def gen_value(rng, pool, p_other=0.08, ascii_text=False, sluggy=False):
+def gen_value(rng, pool, p_other=0.08, ascii_text=False, sluggy=False, p_sub=0.3):
+    """(vk, val, cls): cls names a proper subclass of str / bytes for about p_sub of the text values"""
     r = rng.random()
     if r < p_other:
-        return 'o', rng.choice(sorted(OTHERS))
+        return 'o', rng.choice(sorted(OTHERS)), None
+    sub = rng.random() < p_sub
     if r < 0.5:
-        return 's', hexs(gen_text(rng, ascii_only=ascii_text, sluggy=sluggy))
-    return 'b', hexb(gen_bytes(rng, pool))
+        return ('s', hexs(gen_text(rng, ascii_only=ascii_text, sluggy=sluggy)),
+                rng.choice(sorted(STR_SUBCLASSES)) if sub else None)
+    return 'b', hexb(gen_bytes(rng, pool)), rng.choice(sorted(BYTES_SUBCLASSES)) if sub else None
 
 
 def gen_case(rng, namegen, pool, fn=None, ascii_text=False):
     fn = fn or rng.choice(['safe_decode', 'safe_decode', 'safe_encode', 'safe_encode', 'safe_encode', 'to_utf8',
                            'to_slug', 'to_slug'])
-    vk, val = gen_value(rng, pool, ascii_text=ascii_text and fn == 'to_slug', sluggy=fn == 'to_slug')
+    vk, val, cls = gen_value(rng, pool, ascii_text=ascii_text and fn == 'to_slug', sluggy=fn == 'to_slug')
     stdin, default = gen_locale(rng, namegen)
     r = rng.random()
     incoming = None if r < 0.15 else ('' if r < 0.2 else namegen(rng))
     encoding = namegen(rng)
     if fn == 'safe_encode' and incoming and rng.random() < 0.3:
         encoding = recase(rng, incoming)          # the "same codec" branch, in another letter case
-    return {'fn': fn, 'vk': vk, 'val': val, 'incoming': incoming, 'encoding': encoding,
+    return {'fn': fn, 'vk': vk, 'val': val, 'cls': cls, 'incoming': incoming, 'encoding': encoding,
             'errors': rng.choice(POLICIES), 'stdin': stdin, 'default': default}
 
 
@@ -488,6 +677,17 @@ def fixed_cases():
         for fn in ('safe_decode', 'safe_encode', 'to_utf8', 'to_slug'):
             yield {'fn': fn, 'vk': 'o', 'val': name, 'incoming': None, 'encoding': 'utf-8', 'errors': 'strict',
                    'stdin': ['none', None], 'default': 'utf-8'}
+    # every str / bytes subclass through every helper (empty and non-empty content)
+    for fn in ('safe_decode', 'safe_encode', 'to_utf8', 'to_slug'):
+        for cls in sorted(STR_SUBCLASSES):
+            for text in ('', 'H\xe9llo  World \u20ac'):
+                yield {'fn': fn, 'vk': 's', 'val': hexs(text), 'cls': cls, 'incoming': None, 'encoding': 'UTF-8',
+                       'errors': 'strict', 'stdin': ['none', None], 'default': 'utf-8'}
+        for cls in sorted(BYTES_SUBCLASSES):
+            for data in (b'', 'H\xe9llo  World'.encode('latin-1'), 'H\xe9llo  World'.encode('utf-8')):
+                for inc, enc in (('latin-1', 'utf-8'), ('Latin-1', 'LATIN-1'), ('utf-8', 'latin-1')):
+                    yield {'fn': fn, 'vk': 'b', 'val': hexb(data), 'cls': cls, 'incoming': inc, 'encoding': enc,
+                           'errors': 'strict', 'stdin': ['none', None], 'default': 'utf-8'}
 
 
 # ---------------------------------------------------------------------------
@@ -516,9 +716,11 @@ def correspondence(ctx):
         ctx.evaluations += 1
         impl, _ = call_impl(case)
         ctx.count('corr/%s/%s' % (case['fn'], case['vk']))
+        if case.get('cls'):
+            ctx.count('corr-class/%s/%s' % (case['fn'], case['cls']))
         ctx.count('corr-branch/' + branch_of(case))
         ctx.count('corr-out/' + (impl if impl.startswith('err:') else impl.split(':')[0]))
-        v = case_value(case) if case['vk'] != 'o' else None
+        v = case_content(case)
         passthrough = case['fn'] == 'safe_decode' and case['vk'] == 's'
         if v and not passthrough and impl != 'err:TypeError' and rep == impl:
             ctx.nontrivial(line)
@@ -550,8 +752,9 @@ SLUG_OK = re.compile(r'[a-z0-9_-]*\Z', re.ASCII)
 
 
 def check_slug_output(out):
-    if type(out) is not str:
+    if not isinstance(out, str):
         return 'to_slug returned %s' % type(out).__name__
+    out = plain(out)
     if not SLUG_OK.match(out):
         return 'to_slug output %r has characters outside [a-z0-9_-]' % out
     if '--' in out:
@@ -564,7 +767,7 @@ def branch_of(case):
     fn, vk = case['fn'], case['vk']
     if vk == 'o':
         return 'other-type'
-    v = case_value(case)
+    v = case_content(case)
     resolved = case['incoming'] or (stdin_enc(case['stdin']) or case['default'])
     src = 'explicit' if case['incoming'] else ('stdin' if stdin_enc(case['stdin']) else 'default')
     if vk == 's':
@@ -590,27 +793,38 @@ def oracle(case, note=None):
     from oslo_utils import encodeutils, strutils
     note = note or (lambda k: None)
     fn, vk = case['fn'], case['vk']
-    v = case_value(case)
+    # the content of the argument as an exact str / bytes: what the property speaks about, whatever
+    # the concrete class (case['cls']) of the object handed to the helper
+    v = case_content(case)
+    what = (case.get('cls') or {'s': 'str', 'b': 'bytes'}.get(vk, '')) + ' instance'
     errors = case['errors']
     resolved = case['incoming'] or (stdin_enc(case['stdin']) or case['default'])
     got, raw = call_impl(case)
     if vk == 'o':
         return None if got == 'err:TypeError' else '%s(%s) gave %s, expected TypeError' % (fn, case['val'], got)
+    if got == 'err:TypeError':
+        return '%s(%s) raised TypeError, but the argument is a %s' % (fn, what, {'s': 'str', 'b': 'bytes'}[vk])
+    if case.get('cls'):
+        # an instance of a subclass IS a str / bytes: same outcome as for the exact str / bytes
+        exact, _ = call_impl(dict(case, cls=None))
+        if exact != got:
+            return ('%s(%s) gave %s but %s for the %s with the same content'
+                    % (fn, what, got, exact, {'s': 'str', 'b': 'bytes'}[vk]))
     if fn == 'to_utf8':
         if vk == 'b':
-            return None if (type(raw) is bytes and raw == v) else 'to_utf8(bytes) gave %s' % got
+            return None if (isinstance(raw, bytes) and plain(raw) == v) else 'to_utf8(%s) gave %s, expected the bytes themselves' % (what, got)
         want = outcome(lambda: str(v).encode('utf-8'))
-        if want[0] == 'ok' and not (type(raw) is bytes and raw == want[1] and raw.decode('utf-8') == v):
-            return 'to_utf8(str) gave %s, UTF-8 is %r' % (got, want[1])
+        if want[0] == 'ok' and not (isinstance(raw, bytes) and plain(raw) == want[1] and plain(raw).decode('utf-8') == v):
+            return 'to_utf8(%s) gave %s, UTF-8 is %r' % (what, got, want[1])
         if want[0] == 'err' and got != 'err:' + want[1]:
-            return 'to_utf8(str) gave %s, expected %s' % (got, want[1])
+            return 'to_utf8(%s) gave %s, expected %s' % (what, got, want[1])
         return None
     if fn == 'safe_decode':
         if vk == 's':
-            return None if (type(raw) is str and raw == v) else 'safe_decode(str) gave %s' % got
+            return None if (isinstance(raw, str) and plain(raw) == v) else 'safe_decode(%s) gave %s, expected the text itself' % (what, got)
         want = outcome(lambda: spec_decode(v, resolved, errors))
         if want[0] == 'ok':
-            if not (type(raw) is str and raw == want[1]):
+            if not (isinstance(raw, str) and plain(raw) == want[1]):
                 return 'safe_decode(bytes, %r, %r) gave %s, the codec (UTF-8 on failure) gives %r' % (
                     resolved, errors, got, want[1])
         elif got != 'err:' + want[1]:
@@ -622,13 +836,13 @@ def oracle(case, note=None):
             want = outcome(lambda: str(v).encode(enc, errors))
             if want[0] == 'err':
                 return None if got == 'err:' + want[1] else 'safe_encode(str, %r) gave %s, expected %s' % (enc, got, want[1])
-            if not (type(raw) is bytes and raw == want[1]):
+            if not (isinstance(raw, bytes) and plain(raw) == want[1]):
                 return 'safe_encode(str, encoding=%r, errors=%r) gave %s, the codec gives %r' % (enc, errors, got, want[1])
             # round trip, when the codec itself represents the text
             strict = outcome(lambda: str(v).encode(enc, 'strict'))
-            if strict[0] != 'ok' or strict[1] != raw:
+            if strict[0] != 'ok' or strict[1] != plain(raw):
                 note('roundtrip/not-representable')
-            elif outcome(lambda: bytes(raw).decode(enc))[1] != v:
+            elif outcome(lambda: plain(raw).decode(enc))[1] != v:
                 note('roundtrip/codec-itself-unfaithful')       # e.g. shift_jis maps U+00A5 to 0x5C
             else:
                 note('roundtrip/checked')
@@ -636,18 +850,20 @@ def oracle(case, note=None):
                     for pol2 in POLICIES:
                         with locale(case['stdin'], case['default']):
                             back = outcome(lambda: encodeutils.safe_decode(raw, incoming=enc2, errors=pol2))
+                        if back[0] == 'ok' and isinstance(back[1], str):
+                            back = ('ok', plain(back[1]))
                         if back != ('ok', v):
                             return ('round trip: safe_decode(safe_encode(%r, encoding=%r), incoming=%r, errors=%r) '
                                     'gave %r' % (v, enc, enc2, pol2, back[1]))
             return None
         # bytes
         if not v or resolved.lower() == enc.lower():
-            return None if (type(raw) is bytes and raw == v) else (
+            return None if (isinstance(raw, bytes) and plain(raw) == v) else (
                 'safe_encode(bytes, incoming=%r, encoding=%r) must return the bytes untouched, gave %s'
                 % (resolved, enc, got))
         want = outcome(lambda: spec_decode(v, resolved, errors).encode(enc, errors))
         if want[0] == 'ok':
-            if not (type(raw) is bytes and raw == want[1]):
+            if not (isinstance(raw, bytes) and plain(raw) == want[1]):
                 return 'safe_encode(bytes, incoming=%r, encoding=%r, errors=%r) gave %s, transcoding gives %r' % (
                     resolved, enc, errors, got, want[1])
         elif got != 'err:' + want[1]:
@@ -660,7 +876,7 @@ def oracle(case, note=None):
             if want[0] == 'err':
                 return None if got == 'err:' + want[1] else 'to_slug(bytes) gave %s, expected %s' % (got, want[1])
         if got.startswith('err:'):
-            return 'to_slug raised %s on text input' % got[4:]
+            return 'to_slug(%s) raised %s on text input' % (what, got[4:])
         if vk == 's':
             # what the theorems assume about the front end (a parameter of the model)
             f = front_end(v)
@@ -671,7 +887,9 @@ def oracle(case, note=None):
             return why
         with locale(case['stdin'], case['default']):
             again = outcome(lambda: strutils.to_slug(raw))
-        if again != ('ok', raw):
+        if again[0] == 'ok' and isinstance(again[1], str):
+            again = ('ok', plain(again[1]))
+        if again != ('ok', plain(raw)):
             return 'to_slug is not idempotent: to_slug(%r) = %r' % (raw, again[1])
         return None
     return 'unknown function %r' % fn
@@ -720,7 +938,8 @@ def search(ctx, seeds, full=False):
         ctx.count('search-branch/' + branch_of(case).split('/incoming')[0])
         why = oracle(case, lambda k: ctx.count('search-' + k))
         if why:
-            kind = case['fn'] + ': ' + re.split(r'[(:]| gave| output| is not| raised', why)[0][:40]
+            kind = '%s/%s%s: %s' % (case['fn'], case['vk'], '-subclass' if case.get('cls') else '',
+                                    re.split(r'[(:]| gave| output| is not| raised', why)[0][:40])
             if kind in kinds:
                 continue
             kinds.add(kind)
@@ -739,7 +958,7 @@ def replay(ctx, payload):
         return 0
     print('case          :', case)
     if case['vk'] != 'o':
-        print('value         : %r' % (case_value(case),))
+        print('value         : %s with content %r' % (case.get('cls') or 'exact', case_content(case)))
     impl, _ = call_impl(case)
     print('implementation:', impl)
     dom = in_model_domain(case)
@@ -762,7 +981,8 @@ LEVEL_TEXT = ('Machine-checked proof (Lean 4) over hand-written models of encode
               'the identity on str and decodes bytes with the given codec, UTF-8 on a decoding error; safe_encode then '
               'safe_decode with the same name (any letter case) returns the text whenever the codec can represent it; '
               'safe_encode returns bytes untouched when they are empty or the two names agree up to case and transcodes '
-              'otherwise; to_utf8 is UTF-8 on str and the identity on bytes; all four raise TypeError on any other type; '
+              'otherwise; to_utf8 is UTF-8 on str and the identity on bytes; all four treat an instance of any subclass of '
+              'str / bytes like the str / bytes with the same content and raise TypeError exactly on the other types; '
               'to_slug yields only [a-z0-9_-] with no two adjacent hyphens (a leading or trailing hyphen is possible) '
               'and is idempotent. The codec table and the NFKD front end are parameters: their laws are hypotheses '
               '(proved for the utf-8, latin-1 and ascii codecs implemented in Lean); the slug character classes are '
